@@ -105,7 +105,10 @@ fn short(name: &str) -> &str {
 /// unchanged tree's auto-hinter output differs from FreeType's (DESIGN 2.9 probe 30, re-measured by
 /// this check: the numbers are in the evidence under `auto_baseline_disagreements`) are not judged in
 /// the auto modes; all other modes of these fonts are.
-const AUTO_BASELINE_DISAGREES: [&str; 1] = ["SourceSansPro-Regular.otf"];
+const AUTO_BASELINE_DISAGREES: [&str; 2] = [
+    "SourceSansPro-Regular.otf",
+    "synthetic two-component composite, second no transform",
+];
 
 fn corpus_jobs() -> Vec<FontJob> {
     let root = repo_root();
@@ -162,6 +165,7 @@ enum LoadCmp {
     BothFail,
     Outline { ft: String, sk: String },
     Advance { ft: f32, sk: f32 },
+    LinearAdvance { ft: f32, sk: f32 },
     SkrifaErr(String),
     FreeTypeErr,
 }
@@ -248,6 +252,7 @@ fn compare_load(
     sk: &mut fauntlet::SkrifaInstance,
     gid: u32,
     is_scaled: bool,
+    linear_advance: bool,
     s: &mut Scratch,
 ) -> LoadCmp {
     let g = GlyphId::new(gid);
@@ -269,6 +274,17 @@ fn compare_load(
                     return LoadCmp::Advance { ft: fa, sk: sa };
                 }
             }
+            // Without hinting the advance is the linearly scaled hmtx/CFF advance: FreeType's
+            // linearHoriAdvance (16.16, or font units when unscaled) against skrifa's glyph_metrics —
+            // fauntlet's two `advance()` accessors. This is the only advance comparison available for
+            // CFF glyphs, for which skrifa reports no scaler-adjusted advance.
+            if linear_advance {
+                if let (Some(fl), Some(sl)) = (ft.advance(g), sk.advance(g)) {
+                    if fl != sl {
+                        return LoadCmp::LinearAdvance { ft: fl, sk: sl };
+                    }
+                }
+            }
             let mut h = Fnv::new();
             h.u64(elements_digest(&s.sk));
             h.u64(fa.to_bits() as u64);
@@ -278,6 +294,70 @@ fn compare_load(
             }
         }
     }
+}
+
+// ---------------------------------------------------------------------------------------------
+// Is "hinted by the font's own instructions" defined on the FreeType side for this load?
+// ---------------------------------------------------------------------------------------------
+
+/// FreeType swallows bytecode errors unless FT_LOAD_PEDANTIC is set: a glyph whose program it aborts
+/// (invalid reference, stack problems, its execution budget `100 × numGlyphs` …) is silently returned
+/// unhinted. For such a load FreeType did not produce "the outline hinted by the font's own instructions",
+/// so there is no reference value: the load is outside the property. This repeats the load directly
+/// through freetype-rs with exactly fauntlet's flags plus FT_LOAD_PEDANTIC and returns FreeType's error.
+fn freetype_pedantic_error(job: &FontJob, gid: u32, ppem: u32, mode: Option<Hinting>) -> Option<String> {
+    use freetype::face::LoadFlag;
+    let Some(Hinting::Interpreter(_)) = mode else {
+        return None;
+    };
+    if ppem == 0 {
+        return None;
+    }
+    let lib = freetype::Library::init().ok()?;
+    let face = lib.new_face(&job.path, job.index as isize).ok()?;
+    if face.is_tricky() {
+        return None;
+    }
+    face.set_pixel_sizes(ppem, ppem).ok()?;
+    let flags = LoadFlag::NO_BITMAP | mode.unwrap().freetype_load_flags() | LoadFlag::PEDANTIC;
+    match face.load_glyph(gid, flags) {
+        Ok(()) => None,
+        Err(e) => Some(format!("{e:?}")),
+    }
+}
+
+/// Attribute a failed `Font::instantiate` (fauntlet creates both engines' instances or none).
+fn attribute_instantiate_failure(job: &FontJob, ppem: u32, mode: Option<Hinting>) -> (bool, bool, String) {
+    // FreeType side
+    let ft = (|| -> Result<(), String> {
+        let lib = freetype::Library::init().map_err(|e| format!("FT_Init_FreeType: {e:?}"))?;
+        let face = lib
+            .new_face(&job.path, job.index as isize)
+            .map_err(|e| format!("FT_New_Face: {e:?}"))?;
+        if ppem != 0 {
+            face.set_pixel_sizes(ppem, ppem)
+                .map_err(|e| format!("FT_Set_Pixel_Sizes: {e:?}"))?;
+        }
+        Ok(())
+    })();
+    // skrifa side
+    let sk = (|| -> Result<(), String> {
+        let bytes = std::fs::read(&job.path).map_err(|e| e.to_string())?;
+        let font = FontRef::from_index(&bytes, job.index as u32).map_err(|e| format!("FontRef: {e}"))?;
+        let outlines = font.outline_glyphs();
+        if let (Some(h), true) = (mode, ppem != 0) {
+            skrifa::outline::HintingInstance::new(
+                &outlines,
+                skrifa::instance::Size::new(ppem as f32),
+                skrifa::instance::LocationRef::default(),
+                h.skrifa_options(),
+            )
+            .map_err(|e| format!("HintingInstance::new: {e:?}"))?;
+        }
+        Ok(())
+    })();
+    let msg = format!("FreeType: {:?}; skrifa: {:?}", ft, sk);
+    (ft.is_ok(), sk.is_ok(), msg)
 }
 
 // ---------------------------------------------------------------------------------------------
@@ -291,6 +371,7 @@ struct MismatchAgg {
     gids: BTreeSet<u32>,
     targets: BTreeSet<String>,
     first: Option<(u32, u32, String, String)>, // gid, ppem, mode name, detail
+    first_font: usize,
 }
 
 #[derive(Default)]
@@ -302,8 +383,13 @@ struct Local {
     both_fail: u64,
     instances: u64,
     instantiate_failed: Vec<(usize, u32, String)>,
-    mism: BTreeMap<(String, usize, &'static str), MismatchAgg>, // (kind, font idx, class)
+    mism: BTreeMap<(String, String, &'static str), MismatchAgg>, // (kind, font label, mode class)
+    mism_font: BTreeMap<String, usize>,
     per_font_loads: BTreeMap<usize, u64>,
+    per_font_mism: BTreeMap<(usize, &'static str), u64>,
+    per_font_ns: BTreeMap<(usize, &'static str), u64>,
+    /// (font, FreeType error) → (loads, glyph ids, ppems): interpreter loads whose bytecode FreeType aborts
+    ft_rejects: BTreeMap<(usize, String), (u64, BTreeSet<u32>, BTreeSet<u32>)>,
 }
 
 impl Local {
@@ -322,10 +408,14 @@ impl Local {
             e.gids.extend(v.gids.into_iter());
             e.targets.extend(v.targets);
             match (&e.first, v.first) {
-                (None, f) => e.first = f,
+                (None, f) => {
+                    e.first = f;
+                    e.first_font = v.first_font;
+                }
                 (Some(a), Some(b)) => {
-                    if (b.1, b.0, &b.2) < (a.1, a.0, &a.2) {
-                        e.first = Some(b)
+                    if (v.first_font, b.1, b.0, &b.2) < (e.first_font, a.1, a.0, &a.2) {
+                        e.first = Some(b);
+                        e.first_font = v.first_font;
                     }
                 }
                 _ => {}
@@ -333,6 +423,22 @@ impl Local {
         }
         for (k, v) in o.per_font_loads {
             *self.per_font_loads.entry(k).or_default() += v;
+        }
+        for (k, v) in o.per_font_mism {
+            *self.per_font_mism.entry(k).or_default() += v;
+        }
+        for (k, v) in o.per_font_ns {
+            *self.per_font_ns.entry(k).or_default() += v;
+        }
+        for (k, v) in o.ft_rejects {
+            let e = self.ft_rejects.entry(k).or_default();
+            e.0 += v.0;
+            e.1.extend(v.1);
+            e.2.extend(v.2);
+        }
+        for (k, v) in o.mism_font {
+            let e = self.mism_font.entry(k).or_insert(v);
+            *e = (*e).min(v);
         }
         self
     }
@@ -348,6 +454,10 @@ fn kind_of(c: &LoadCmp) -> Option<(String, String)> {
         LoadCmp::Advance { ft, sk } => Some((
             "advance differs from FreeType".into(),
             format!("FreeType {ft} skrifa {sk}"),
+        )),
+        LoadCmp::LinearAdvance { ft, sk } => Some((
+            "linear advance differs from FreeType".into(),
+            format!("FreeType linearHoriAdvance {ft} skrifa glyph_metrics advance {sk}"),
         )),
         LoadCmp::SkrifaErr(e) => Some((
             format!("skrifa Err({e}) where FreeType loads"),
@@ -387,7 +497,7 @@ fn run_task(jobs: &[FontJob], fi: usize, mode: Option<Hinting>, ppems: &[u32], l
         l.instances += 1;
         let class = mode_class(mode, ppem);
         for gid in 0..job.glyphs {
-            let c = compare_load(&mut ft, &mut sk, gid, ppem != 0, &mut scratch);
+            let c = compare_load(&mut ft, &mut sk, gid, ppem != 0, hinting.is_none(), &mut scratch);
             l.loads += 1;
             match &c {
                 LoadCmp::Agree { nonempty, digest } => {
@@ -405,8 +515,25 @@ fn run_task(jobs: &[FontJob], fi: usize, mode: Option<Hinting>, ppems: &[u32], l
                 }
                 LoadCmp::BothFail => l.both_fail += 1,
                 other => {
+                    if let Some(err) = freetype_pedantic_error(job, gid, ppem, mode) {
+                        // FreeType itself aborts this glyph's bytecode: no reference value
+                        let e = l.ft_rejects.entry((fi, err)).or_default();
+                        e.0 += 1;
+                        e.1.insert(gid);
+                        e.2.insert(ppem);
+                        continue;
+                    }
                     let (kind, detail) = kind_of(other).unwrap();
-                    let e = l.mism.entry((kind, fi, class)).or_default();
+                    // corpus fonts: label = file name; synthetic family: label = the glyph's feature class
+                    // (the same defect shows on every unitsPerEm)
+                    let label = if job.synthetic {
+                        format!("synthetic {}", synth::class_of(gid))
+                    } else {
+                        short(&job.name).to_string()
+                    };
+                    l.mism_font.entry(label.clone()).or_insert(fi);
+                    *l.per_font_mism.entry((fi, class)).or_default() += 1;
+                    let e = l.mism.entry((kind, label, class)).or_default();
                     e.count += 1;
                     e.ppems.insert(ppem);
                     if e.gids.len() < 4096 {
@@ -415,6 +542,7 @@ fn run_task(jobs: &[FontJob], fi: usize, mode: Option<Hinting>, ppems: &[u32], l
                     e.targets.insert(mname.clone());
                     if e.first.is_none() {
                         e.first = Some((gid, ppem, mname.clone(), detail));
+                        e.first_font = fi;
                     }
                 }
             }
@@ -457,6 +585,7 @@ fn body(run: &Run, replay: Option<&Value>) {
     run.rule("a case is one glyph load (font, glyph id, ppem, mode) executed by both skrifa and the bundled FreeType through fauntlet's instances and RegularizingPen; a (font, glyph, mode) triple is non-trivial when its outline is non-empty and its regularised stream differs between two consecutive ppem of the grid; states = distinct (font, glyph, mode, emptiness) outcomes");
     run.assume("FreeType as compiled by freetype-sys from its bundled sources (the build fauntlet links) is the reference, including its version and default driver properties");
     run.assume("fauntlet's RegularizingPen is the cosmetic normalisation the property refers to; fauntlet's FreeTypeInstance/SkrifaInstance decide load flags and hinting options");
+    run.assume("an interpreter-mode load on which FreeType itself aborts the glyph's bytecode (the same load with FT_LOAD_PEDANTIC returns an error; without it FreeType silently returns the unhinted outline) has no reference value and is outside the property; such loads are counted and listed in the evidence");
     run.assume("auto-hinter modes are judged only on fonts where the unchanged tree agrees with FreeType (the property's carve-out); excluded fonts are listed in bounds.auto_excluded_fonts and their measured disagreement is reported");
 
     let tmp = std::env::temp_dir().join(format!("c03-synth-{}", std::process::id()));
@@ -519,7 +648,9 @@ fn body(run: &Run, replay: Option<&Value>) {
         .with_max_len(1)
         .fold(Local::default, |mut l, ti| {
             let (fi, m, p) = &tasks[*ti];
+            let t0 = std::time::Instant::now();
             run_task(&jobs, *fi, *m, p, &mut l);
+            *l.per_font_ns.entry((*fi, mode_class(*m, 1))).or_default() += t0.elapsed().as_nanos() as u64;
             l
         })
         .reduce(Local::default, Local::merge);
@@ -531,15 +662,38 @@ fn body(run: &Run, replay: Option<&Value>) {
     run.count("loads_agree", merged.agree);
     run.count("loads_both_engines_fail", merged.both_fail);
     run.count("instances", merged.instances);
-    for (fi, ppem, m) in merged.instantiate_failed.iter().take(20) {
-        // an instance neither side could be created for: attribute it
+    // fauntlet creates both instances or none: attribute each failure. If FreeType cannot open the font or
+    // set the size there is no reference (outside the property, reported in the evidence); if only skrifa
+    // fails it is a violation.
+    let mut no_reference = serde_json::Map::new();
+    for (fi, ppem, m) in merged.instantiate_failed.iter() {
         let job = &jobs[*fi];
+        let mode = mode_from_name(m).unwrap_or(None);
+        let (ft_ok, sk_ok, msg) = attribute_instantiate_failure(job, *ppem, mode);
+        if !ft_ok {
+            let e = no_reference
+                .entry(short(&job.name).to_string())
+                .or_insert(json!({"instances": 0, "reason": msg}));
+            e["instances"] = json!(e["instances"].as_u64().unwrap_or(0) + 1);
+            continue;
+        }
+        let _ = sk_ok;
         run.violation(
-            &format!("instantiate fails [{}] mode={}", short(&job.name), m.split(':').next().unwrap_or(m)),
-            &format!("fauntlet::Font::instantiate returned None for {} ppem {} mode {}", job.name, ppem, m),
+            &format!("skrifa cannot create an instance FreeType creates [{}] mode={}", short(&job.name), mode_class(mode, *ppem)),
+            &format!("fauntlet::Font::instantiate returned None for {} ppem {} mode {}: {}", job.name, ppem, m, msg),
             json!({"font": job.name, "gid": 0, "ppem": ppem, "mode": m}),
         );
     }
+    run.extra("no_freetype_reference_instances", Value::Object(no_reference));
+    let mut rej = serde_json::Map::new();
+    for ((fi, err), (n, gids, ppems)) in merged.ft_rejects.iter() {
+        rej.insert(
+            format!("{} / {}", short(&jobs[*fi].name), err),
+            json!({"loads": n, "glyph_ids": gids.iter().take(16).collect::<Vec<_>>(), "ppems": ranges(ppems)}),
+        );
+        run.count("loads_outside_property_freetype_aborts_bytecode", *n);
+    }
+    run.extra("freetype_aborts_bytecode_under_pedantic", Value::Object(rej));
 
     // samples: first load of a few fonts
     for j in jobs.iter().step_by((jobs.len() / 5).max(1)).take(6) {
@@ -550,30 +704,36 @@ fn body(run: &Run, replay: Option<&Value>) {
     let mut rows = vec![];
     for (fi, j) in jobs.iter().enumerate() {
         let mut mm = serde_json::Map::new();
-        for ((kind, f, class), agg) in merged.mism.iter() {
+        for ((f, class), n) in merged.per_font_mism.iter() {
             if *f == fi {
-                mm.insert(format!("{class}: {kind}"), json!(agg.count));
+                mm.insert(class.to_string(), json!(n));
             }
         }
-        rows.push(json!({"font": j.name, "flavour": j.flavour, "glyphs": j.glyphs, "loads": merged.per_font_loads.get(&fi).copied().unwrap_or(0), "mismatches": mm}));
+        let mut cpu = serde_json::Map::new();
+        for ((f, class), ns) in merged.per_font_ns.iter() {
+            if *f == fi {
+                cpu.insert(class.to_string(), json!((*ns as f64 / 1e7).round() / 100.0));
+            }
+        }
+        rows.push(json!({"font": j.name, "flavour": j.flavour, "glyphs": j.glyphs, "loads": merged.per_font_loads.get(&fi).copied().unwrap_or(0), "mismatches": mm, "cpu_seconds": cpu}));
     }
     run.extra("fonts", json!(rows));
 
-    // violations, one per (kind, font, mode class)
+    // violations, one per (kind, font label, mode class)
     let mut auto_excluded = serde_json::Map::new();
-    for ((kind, fi, class), agg) in merged.mism.iter() {
-        let job = &jobs[*fi];
+    for ((kind, label, class), agg) in merged.mism.iter() {
+        let job = &jobs[agg.first_font];
         let (gid, ppem, mname, detail) = agg.first.clone().unwrap();
-        if *class == "auto" && AUTO_BASELINE_DISAGREES.contains(&short(&job.name)) {
+        if *class == "auto" && AUTO_BASELINE_DISAGREES.contains(&label.as_str()) {
             auto_excluded.insert(
-                format!("{} / {}", short(&job.name), kind),
+                format!("{label} / {kind}"),
                 json!({"loads_disagreeing": agg.count, "of_loads": job.glyphs as u64 * n_max as u64 * 5, "ppems": ranges(&agg.ppems)}),
             );
             continue;
         }
-        let id = format!("{kind} [{}] mode={class}", short(&job.name));
+        let id = format!("{kind} [{label}] mode={class}");
         let what = format!(
-            "{}: {} of this font's loads in mode class {class} disagree (targets {:?}; ppem {}; {} distinct glyphs, e.g. {:?}); first: gid {gid} ppem {ppem} {mname}: {detail}",
+            "{}: {} loads in mode class {class} disagree (targets {:?}; ppem {}; {} distinct glyph ids, e.g. {:?}); first: gid {gid} ppem {ppem} {mname}: {detail}",
             job.name,
             agg.count,
             agg.targets,
@@ -587,7 +747,7 @@ fn body(run: &Run, replay: Option<&Value>) {
     let _ = std::fs::remove_dir_all(&tmp);
 }
 
-const QUICK_MAX_GLYPHS: u32 = 120;
+const QUICK_MAX_GLYPHS: u32 = 700;
 
 fn skrifa_feature_report() -> Value {
     // Cargo passes the enabled features of *this* crate only; for skrifa we observe behaviour instead:
@@ -656,17 +816,22 @@ fn replay_case(run: &Run, case: &Value, synth_jobs: &[FontJob]) {
         ft: vec![],
         sk: vec![],
     };
-    let c = compare_load(&mut ft, &mut sk, gid, ppem != 0, &mut s);
+    let c = compare_load(&mut ft, &mut sk, gid, ppem != 0, hinting.is_none(), &mut s);
     println!("replay: {} gid {gid} ppem {ppem} {}: {:?}", job.name, mode_name(mode), c);
     if let Some((kind, detail)) = kind_of(&c) {
+        if let Some(err) = freetype_pedantic_error(job, gid, ppem, mode) {
+            println!("replay: FreeType aborts this glyph's bytecode under FT_LOAD_PEDANTIC ({err}): outside the property");
+            return;
+        }
         let class = mode_class(mode, ppem);
         if class == "auto" && AUTO_BASELINE_DISAGREES.contains(&short(&job.name)) {
             return;
         }
-        run.violation(
-            &format!("{kind} [{}] mode={class}", short(&job.name)),
-            &detail,
-            case.clone(),
-        );
+        let label = if job.synthetic {
+            format!("synthetic {}", synth::class_of(gid))
+        } else {
+            short(&job.name).to_string()
+        };
+        run.violation(&format!("{kind} [{label}] mode={class}"), &detail, case.clone());
     }
 }
